@@ -11,7 +11,7 @@ from oracle_dense import mpo_to_mat, mpo_mask_violation
 ID = 'C07'
 RULE = ('cases = (variant spinless | spin-orbital, build path optimized | explicit, orbital count L over the whole documented domain up to dense/sparse reach, '
         'coefficient structure: complex / real / random zero mask / symmetric (hermitian t, symmetric v) / zero-padded (last orbital decoupled) / integer-valued / one-body only / '
-        'two-body only); gauge part: explicit spinless MPO, every rotated pair i, 2x2 unitary in {Haar, real rotation, permutation, diagonal phases, identity}. '
+        'two-body only; flag spelled as bool, numpy.bool_ or int: same tensors as with the Python bool); gauge part: explicit spinless MPO, every rotated pair i, 2x2 unitary in {Haar, real rotation, permutation, diagonal phases, identity}, optionally another molecular MPO (different L, explicit / spin / optimized) built between construction and gauge call. '
         'Non-trivial: L >= 2 and non-zero two-body tensor.')
 ASSUME = ['reference = second-quantized operator built from occupation-number states (oracle_fock), compared in sparse form with max-abs tolerance 1e-11 x scale',
           'coefficient tensors that vanish identically are outside the domain',
@@ -72,11 +72,13 @@ def check_construction(case, rec):
     # the flag in its legal forms: Python bool, NumPy bool, integer
     flag = [opt, np.bool_(opt), int(opt)][case['seed'] % 3]
     mpo = (ptn.spin_molecular_hamiltonian_mpo if spin else ptn.molecular_hamiltonian_mpo)(t, v, optimize=flag)
-    if opt:
-        # the optimized construction does not carry the node bookkeeping of the explicit one
-        require(not hasattr(mpo, 'nid_map'), 'optimize flag given as a truthy non-bool selected the explicit construction')
-    else:
-        require(hasattr(mpo, 'nid_map'), 'optimize flag given as a falsy non-bool selected the optimized construction')
+    if not isinstance(flag, bool):
+        # the spelling of the flag must not matter: same construction as with the Python bool (construction is deterministic)
+        mpo_b = (ptn.spin_molecular_hamiltonian_mpo if spin else ptn.molecular_hamiltonian_mpo)(t, v, optimize=bool(opt))
+        require(mpo.bond_dims == mpo_b.bond_dims and all(np.array_equal(a, b) for a, b in zip(mpo.A, mpo_b.A)),
+                'optimize flag given as NumPy bool / integer selects a different construction than the Python bool',
+                flag=repr(flag), bond_dims=mpo.bond_dims, bond_dims_bool=mpo_b.bond_dims)
+        rec.label('flag_' + type(flag).__name__)
     require(np.array_equal(t, t0) and np.array_equal(v, v0), 'constructor modified the coefficient tensors')
     require(mpo.nsites == L, 'wrong number of sites', got=mpo.nsites, want=L)
     d = 4 if spin else 2
@@ -160,6 +162,19 @@ def check_gauge(case, rec):
     h = ptn.molecular_hamiltonian_mpo(t, v, optimize=False)
     h_rot = ptn.molecular_hamiltonian_mpo(t_rot, v_rot, optimize=False)
     h.A[i] = np.copy(h_rot.A[i]); h.A[i + 1] = np.copy(h_rot.A[i + 1])
+    # other Hamiltonians built in between must not matter: `h` carries its own node bookkeeping
+    other = case.get('interleave')
+    if other:
+        rng_o = np.random.default_rng(case['seed'] + 1)
+        Lo = other[1]
+        to = rng_o.normal(size=(Lo, Lo)); vo = rng_o.normal(size=(Lo, Lo, Lo, Lo))
+        if other[0] == 'spin':
+            ptn.spin_molecular_hamiltonian_mpo(to, vo, optimize=False)
+        elif other[0] == 'spinless_opt':
+            ptn.molecular_hamiltonian_mpo(to, vo, optimize=True)
+        else:
+            ptn.molecular_hamiltonian_mpo(to, vo, optimize=False)
+        rec.label('interleaved_' + other[0])
     v_l, v_r = ptn.molecular_hamiltonian_orbital_gauge_transform(h, u2, i)
     D = h.bond_dims
     require(v_l.shape == (D[i], D[i]) and v_r.shape == (D[i + 2], D[i + 2]), 'gauge matrices have the wrong shape',
@@ -185,7 +200,10 @@ def check_gauge(case, rec):
 @st.composite
 def gen_gauge(draw, tier):
     L = draw(st.sampled_from([7, 6, 5, 4, 8] if tier == 'quick' else [7, 8, 9, 6, 5, 4]))
-    return {'L': L, 'i': draw(st.sampled_from(list(range(L - 1)))), 'struct': draw(st.sampled_from(['complex', 'real', 'masked', 'symmetric'])),
+    inter = draw(st.sampled_from([None, None, 'spinless', 'spinless', 'spin', 'spinless_opt']))
+    if inter is not None:
+        inter = [inter, draw(st.sampled_from([x for x in ([2, 3] if inter == 'spin' else [4, 5, 6, 7]) if x != L]))]
+    return {'interleave': inter, 'L': L, 'i': draw(st.sampled_from(list(range(L - 1)))), 'struct': draw(st.sampled_from(['complex', 'real', 'masked', 'symmetric'])),
             'seed': draw(st.integers(0, 10**6)), 'ukind': draw(st.sampled_from(['haar', 'haar', 'haar', 'phases', 'rotation', 'permutation', 'identity'])),
             'useed': draw(st.integers(0, 10**6))}
 
